@@ -18,7 +18,18 @@ CONFIG = dict(
                "body, and it is proved for EVERY handler behaviour (any number of completions, values the completion function panics on, panicking or not) that "
                "the framework's own 'panic in rpc' completion is made iff the handler's frame panicked and none of its completions had gone through "
                "(exec_panic_completion_iff_not_completed); hence the exactly-once theorems now cover a handler that completes once and THEN panics, and a "
-               "completion function that itself panics (unserialisable result) still gets the error (exec_choking_callback_still_gets_error).  The code before "
+               "completion function that itself panics (unserialisable result) still gets the error (exec_choking_callback_still_gets_error).  The helper every handler of the repository completes through "
+               "(CheckInvokeCBFunc with any (e, result): nil test, then the call) is modelled as checkInvokeAny and proved transparent for every function value, "
+               "argument and state of 'completed' (helper_is_transparent), so a handler body that reports through it has the same execution as one that calls the "
+               "function itself (handler_through_helper_same_execution, call_method_body_through_helper) and a choking completion function still gets the error "
+               "(helper_choking_callback_still_gets_error); that the helper must NOT recover is shown on the variant with a deferred recover: the call is then "
+               "completed zero times (recovering_helper_loses_the_completion, recovering_helper_never_reaches_recover).  Completions made AFTER the call returned "
+               "(the handler kept the function: Exec.thenLate) are inside the model: one the function can take goes through once (late_completion_completes_once), "
+               "one it chokes on ESCAPES as a panic with nothing completed - there is no SafeCall above it (late_choking_completion_escapes; observed on the real "
+               "code on every run, judged 'outside-statement').  The fall-through of Service.handleRequest deserialises the body BEFORE it looks for a legacy receiver and "
+               "panics when it cannot (handleRequestXB): a request the dispatcher processes never gets there (handle_request_routed_ignores_body), an unknown route with such a "
+               "body is answered 'no method' once and THEN the panic escapes (handle_request_unknown_route_bad_body_escapes, handle_request_unrouted_bad_body_escapes; observed "
+               "on the real code on every run, judged 'outside-statement').  The code before "
                "that fix is kept as callMethodXPre / completionsGPre with the witness that it completed twice (prefix_complete_then_panic_completed_twice).  The summary "
                "model (Outcome + completions table) the older theorems are about is PROVED to be what the executions do (execution_refines_summary, "
                "dispatch_execution_refines_summary).  Proved to be FALSE for the code as it is, each with a concrete witness reproduced on the real code "
@@ -27,7 +38,7 @@ CONFIG = dict(
                "type whose UnmarshalJSON panics under the JSON serializer: outside SafeCall), answered-once for an unknown route at the service level "
                "when the legacy receiver answers too (Dispatch answers 'no method', returns false, handleRequest falls through).  The model is tied to the "
                "Go code on every run by executing both on a zoo of ~80 real methods plus thousands of synthetic reflect.Method shapes, all naming options, "
-               "JSON/protobuf/nil/panicking serializers, routes from a malformed stream, valid/undecodable/empty payloads, caller-supplied arguments that are "
+               "JSON/protobuf/nil/panicking serializers, zoo handlers that complete through apientry.CheckInvokeCBFunc (half of all calls) or by calling the function themselves,  routes from a malformed stream, valid/undecodable/empty payloads, caller-supplied arguments that are "
                "assignable but not identical to the declared type (named pointer types), requests without sender, Service.Receive with absent/silent/"
                "answering legacy receivers, nil entries; the observations of the model side are printed from the executions; the property predicate is "
                "evaluated on the implementation's own observations with the declarative route table.",
@@ -37,9 +48,10 @@ CONFIG = dict(
                "model; the differential run ties it to the code on sampled inputs only.  An arbitrary IAPIFormatter handed to SetFormater is a "
                "parameter of the model (buildX, custom_formater_can_escape, escapes_iff_message_type_has_no_elem); the harness drives the default formater, nil, and two "
                "formaters of its own (message by value admitted: argType.Elem() panics outside SafeCall; every exported method admitted: mt.In(1) panics in Build) - "
-               "for those collections only the model is compared, the property predicate is not evaluated (its claims are about the default formater).  Not modelled: a failing remote.Deserialize in the legacy path of handleRequest (C07), completions made after "
-               "the call returned by another goroutine (the 'late' script is played after the call and compared, but a late completion whose value makes "
-               "Response panic has no SafeCall above it), concurrent Register while Registry.Build iterates, non-ASCII type names.",
+               "for those collections only the model is compared, the property predicate is not evaluated (its claims are about the default formater).  Late completions (scripts 'late' / 'latebad') are played by the harness on the calling goroutine after the call returned, "
+               "not from a second goroutine (the event order call-then-late is what the model has; a completion racing with the call's own return is not modelled).  "
+               "The fall-through of handleRequest is modelled with the result of remote.Deserialize as a parameter (handleRequestXB: body deserialises | not; the harness "
+               "drives 'not' with a type name the process does not know); what Deserialize itself does with bytes is C07's.  Not modelled: concurrent Register while Registry.Build iterates, non-ASCII type names.",
     gen=["cd /verif/harness && go1.26 run ./c13/extract -repo /repo -out /verif/lean/Cell2v/Gen/C13Registry.lean"],
     lean_targets=["Cell2v.Props.C13", "modeld_c13"],
     driver="modeld_c13",
@@ -64,7 +76,13 @@ CONFIG = dict(
                        "build_does_not_panic", "build_nil_entry_panics", "escapes_iff_message_type_has_no_elem", "custom_formater_can_escape",
                        "dispatch_execution_refines_summary", "exec_dispatch_request_answered_once_partial",
                        "request_without_sender_never_answered", "handle_request_unknown_route", "unknown_route_answered_once_full_fails",
-                       "handle_request_unknown_route_legacy_answers_twice", "handle_request_routed_is_dispatch"],
+                       "handle_request_unknown_route_legacy_answers_twice", "handle_request_routed_is_dispatch",
+                       "helper_is_transparent", "handler_through_helper_same_execution", "call_method_body_through_helper",
+                       "helper_choking_callback_still_gets_error", "recovering_helper_loses_the_completion",
+                       "recovering_helper_never_reaches_recover",
+                       "late_completion_completes_once", "late_choking_completion_escapes", "late_nothing_without_handler",
+                       "handle_request_routed_ignores_body", "handle_request_unknown_route_bad_body_escapes",
+                       "handle_request_unrouted_bad_body_escapes"],
     harness_pkg="./c13",
     mode="diff",
     reset_prefix="reset",
@@ -93,11 +111,14 @@ CONFIG = dict(
          "calls: HasMethod/GetArgType, CallWithSerialize (json/proto/nil serializer, 1 in 40 a user serializer whose Unmarshal panics), Collection.Call "
          "with typed/nil/wrong arguments and, for *MsgA / the named pointer type PM, the assignable-but-not-identical other one, "
          "APIDispatcher.Dispatch over several collections (request and notify; 1 in 12 without sender), 1 in 3 of those through Service.Receive/handleRequest "
-         "with an absent / silent / answering legacy receiver, with or without a dispatcher, with an empty route; routes: 60% aimed at a real method, else case variants, 0-4 segments, "
+         "with an absent / silent / answering legacy receiver, with or without a dispatcher, with an empty route, 1 in 8 of those with a body the process cannot deserialise (body=bad: unknown type name); routes: 60% aimed at a real method, else case variants, 0-4 segments, "
          "empty parts, unknown group/method, random bytes; payloads valid/undecodable/empty/truncated/valid JSON value + trailing junk (extra brace, trailing comma, second document, other bytes; trailing white space still decodes); contexts nil/matching/other type; with a plain completion function, "
          "a picky one (1 in 6 of those that carry one: panics on the value the 'bad' scripts complete with, as the dispatcher's closure does) and without; handler scripts "
-         "ok/err/twice/err-then-ok/none/panic/runtime-panic/complete-then-panic/error-then-panic/twice-then-panic/late/unserialisable value/error-then-unserialisable value "
-         "(corpus d23.txt: each of them through CallWithSerialize with both kinds of completion function, Dispatch and handleRequest). "
+         "ok/err/twice/err-then-ok/none/panic/runtime-panic/complete-then-panic/error-then-panic/twice-then-panic/late/unserialisable value/error-then-unserialisable value/"
+         "late unserialisable value "
+         "(corpus d23.txt: each of them through CallWithSerialize with both kinds of completion function, Dispatch and handleRequest; helper.txt: the same with hc=helper; "
+         "late.txt: late / latebad through all of them); in half of the calls (hc=helper) the zoo handler completes through apientry.CheckInvokeCBFunc - the helper "
+         "every handler of the repository uses - instead of calling the function it was handed. "
          "A case is non-trivial when a handler ran, a table was non-empty or a method was accepted; distinct = distinct (op, observation) pairs",
     trusted_base=[
         "Lean 4.33.0 kernel; axioms of every property theorem audited on each run (allowed: propext, Classical.choice, Quot.sound)",
@@ -132,6 +153,12 @@ CONFIG = dict(
         "formater is the default one or nil (an arbitrary IAPIFormatter can make Build panic and calls escape: custom_formater_can_escape; tied for two formaters of the harness, not judged)",
         "type and method names are ASCII (isExported / name functions are modelled on bytes); assignability of the CONTEXT argument is what reflect reports for the context "
         "values of the harness (for a parameter the predicate admits - an unnamed pointer type implementing IContext - that is type identity)",
+        "a handler that completes AFTER the call returned does so with a value its completion function can take: one it chokes on (the dispatcher's closure: "
+        "Response on an unserialisable result) panics with no SafeCall above it, nothing is completed and the goroutine dies (late_choking_completion_escapes, "
+        "observed on the real code on every run, judged 'outside-statement', NOT alarmed on - a candidate finding for the lead to classify)",
+        "service level: the body of a request that falls through to the legacy path (no dispatcher, no route, unknown route) deserialises in the receiving process; when it "
+        "does not (type name unknown there) handleRequest panics - after 'no method' was answered for an unknown route (handle_request_unknown_route_bad_body_escapes, "
+        "observed on the real code on every run, judged 'outside-statement', NOT alarmed on - a candidate finding for the lead to classify)",
         "D11 (known finding C13/request-on-notify-shaped-never-completes) is pinned by the baseline test apientry::TestCall and stays: the model returns 'nothing' there",
     ],
 )
